@@ -32,6 +32,8 @@ type c13Scn struct {
 	// Mix: the envelopes sent to the server are messages, notifications, request commands and response commands that
 	// answer nothing, in turn (each kind has its own inbound stream and its own hand-over in the receiver)
 	Mix bool `json:"mix,omitempty"`
+	// AgeMs: the session has been established for that long when it is ended
+	AgeMs int `json:"age_ms,omitempty"`
 }
 
 // -1 = not observed
@@ -370,6 +372,9 @@ func c13Run(scn *c13Scn) c13Obs {
 				}
 			}
 		}
+		if scn.AgeMs > 0 {
+			time.Sleep(time.Duration(scn.AgeMs) * time.Millisecond)
+		}
 		switch scn.Init {
 		case "clientfinish":
 			sendToServer()
@@ -549,7 +554,7 @@ func (c *c13Case) coq() string {
 func runC13(env *Env) error {
 	env.Header = "From Coq Require Import List Bool Arith.\nImport ListNotations.\nFrom Lime Require Import Base.Res Chan.Teardown Corr.C13.\n"
 	env.ShardSize = 30
-	env.Rule = "real Server (handleChannel, dispatch loop, deferred finish) and real ClientChannel / high-level Client, each scenario in its own process: 5 initiators (client FinishSession, handler error -> server finish, ServerChannel.FailSession from a handler, Client.Close, Server.Close) x in-process / TCP / WebSocket x stream capacities 0, 1, 64 x 0-40 envelopes sent right before the terminal envelope in either direction (towards the server also as a mix of messages, notifications, request commands and unsolicited response commands) x fast / slow consumers. Non-trivial: traffic in flight in some direction. Distinct by printed scenario."
+	env.Rule = "real Server (handleChannel, dispatch loop, deferred finish) and real ClientChannel / high-level Client, each scenario in its own process: 5 initiators (client FinishSession, handler error -> server finish, ServerChannel.FailSession from a handler, Client.Close, Server.Close) x in-process / TCP / WebSocket x stream capacities 0, 1, 64 x 0-40 envelopes sent right before the terminal envelope in either direction (towards the server also as a mix of messages, notifications, request commands and unsolicited response commands) x fast / slow consumers; sessions ended at once or after 1.2 s. Non-trivial: traffic in flight in some direction. Distinct by printed scenario."
 	var rc c13Case
 	if ok, err := env.ReplayDesc(&rc); err != nil {
 		return err
@@ -589,6 +594,12 @@ func runC13(env *Env) error {
 	}
 	for _, cp := range []int{0, 1, 64} {
 		scns = append(scns, c13Scn{Kind: "tcp", Init: "crossfail", Cap: cp})
+	}
+	// sessions that have lived for more than a second when they end
+	for _, k := range kinds {
+		for _, in := range []string{"clientfinish", "serverclose", "serverfinish"} {
+			scns = append(scns, c13Scn{Kind: k, Init: in, Cap: 4, ToSv: 2, ToCl: 0, AgeMs: 1200})
+		}
 	}
 	// mixed kinds towards a server that ends the session itself while its inbound streams fill up
 	for _, k := range kinds {
